@@ -157,7 +157,9 @@ Definition equals_mismatches (ws : list world) : list N := failing equals_check 
    nested init-hash as a Hash), the observed outcome (the normal form of the object read attribute by attribute through Get, or
    the class of the rejection) and the observed init-hash.  Besides the outcome and the init-hash the obligation evaluates, on
    every constructed object, the hypotheses and conclusions of the theorems C17_nested_*: the type is well formed, the object is
-   an instance of its type, and coercing its full init-hash form gives the object back. *)
+   an instance of its type, and coercing its full init-hash form gives the object back; the named creator rebuilds it from
+   {name_i => v_i}, from its full init-hash form and from the model's InitHash; and the argument hash of every named
+   construction denotes the observed object (`repb`, the hypothesis of C17_nested_every_form_builds_the_object). *)
 Record ncase := mkNCase { nc_name : str; nc_attrs : nty; nc_nargs : list nvalue; nc_nobs : nres; nc_nih : list (str * nvalue) }.
 
 Definition nres_eqb (a b : nres) : bool :=
@@ -177,6 +179,20 @@ Definition nested_check (c : ncase) : bool :=
        list_eqb nkv_eqb (ninit_hash (nc_attrs c) vals) (nc_nih c)
        && nwf t && ninst t (NVObj m vals)
        && match coerce t (to_init t (NVObj m vals)) with Some v => nvalue_eqb v (NVObj m vals) | None => false end
+       (* instances of C17_nested_forms_build_one_object / C17_nested_init_hash_roundtrip on the observed object: by name
+          from the instances (zipv), from the full init-hash form, and from the model's InitHash *)
+       && nres_eqb (named_new m (nc_attrs c) (zipv (nc_attrs c) vals)) (NOk (NVObj m vals))
+       && nres_eqb (nnew m (nc_attrs c) [NVHash (to_init_vals (nc_attrs c) vals)]) (NOk (NVObj m vals))
+       && nres_eqb (nnew m (nc_attrs c) [NVHash (ninit_hash (nc_attrs c) vals)]) (NOk (NVObj m vals))
+       (* the hypothesis of C17_nested_every_form_builds_the_object on the arguments the harness generated: whenever the named
+          creator took the call, the argument hash DENOTES the observed object (repb: nested objects as instances or init-hashes
+          in any mixture, declared values given or left out) *)
+       && match nc_nargs c with
+          | [NVHash h] =>
+            if keys_known (nc_attrs c) h && ginst_members true (nc_attrs c) h then repb t (NVHash h) (NVObj m vals)
+            else posrep (nc_attrs c) (nc_nargs c) vals
+          | _ => posrep (nc_attrs c) (nc_nargs c) vals     (* the same for the positional creator: C17_nested_every_tuple_builds_the_object *)
+          end
      | NOk _ => false
      | _ => true
      end.
